@@ -1,0 +1,18 @@
+//go:build verif
+// +build verif
+
+// Contracts for the deductive verification of this package (comment-only file;
+// it is compiled only with the build tag "verif" and declares nothing).
+// Syntax and the verifier that reads it: /verif/DESIGN.md, /verif/govc.
+
+package wire
+
+//@ func funcOutput
+//@   ensures [C09] sig.Results().Len() == 0 ==> result.1 != nil
+//@   ensures [C09] sig.Results().Len() == 1 ==> result.1 == nil && result.0.out == sig.Results().At(0).Type() && !result.0.cleanup && !result.0.err
+//@   ensures [C09] sig.Results().Len() == 2 && tid(sig.Results().At(1).Type()) == tid(errorType) ==> result.1 == nil && result.0.out == sig.Results().At(0).Type() && !result.0.cleanup && result.0.err
+//@   ensures [C09] sig.Results().Len() == 2 && tid(sig.Results().At(1).Type()) != tid(errorType) && tid(sig.Results().At(1).Type()) == tid(cleanupType) ==> result.1 == nil && result.0.out == sig.Results().At(0).Type() && result.0.cleanup && !result.0.err
+//@   ensures [C09] sig.Results().Len() == 2 && tid(sig.Results().At(1).Type()) != tid(errorType) && tid(sig.Results().At(1).Type()) != tid(cleanupType) ==> result.1 != nil
+//@   ensures [C09] sig.Results().Len() == 3 && tid(sig.Results().At(1).Type()) == tid(cleanupType) && tid(sig.Results().At(2).Type()) == tid(errorType) ==> result.1 == nil && result.0.out == sig.Results().At(0).Type() && result.0.cleanup && result.0.err
+//@   ensures [C09] sig.Results().Len() == 3 && !(tid(sig.Results().At(1).Type()) == tid(cleanupType) && tid(sig.Results().At(2).Type()) == tid(errorType)) ==> result.1 != nil
+//@   ensures [C09] sig.Results().Len() >= 4 ==> result.1 != nil
